@@ -65,6 +65,29 @@ type setup struct {
 	Height uint64 // proof height
 	Delay  uint64
 	Cons   map[uint64][32]byte // revision height -> stored state root (same revision as head)
+	// FieldSkew says what the Height FIELD inside the stored consensus states holds. States written by header updates carry
+	// their own height; those installed by a create / upgrade / toggle proposal or a genesis file carry whatever the content
+	// said (nothing validates it): "zero" = unset, "ahead" = far above the head, "behind" = 1000 lower. The key they are
+	// stored under - the proof height - is what the property's height and delay rules speak about.
+	FieldSkew string
+}
+
+func (s setup) heightField(h uint64) clienttypes.Height {
+	switch s.FieldSkew {
+	case "zero":
+		return clienttypes.Height{}
+	case "ahead":
+		if s.Head < math.MaxUint64-2000 {
+			return clienttypes.NewHeight(s.Rev, s.Head+1000)
+		}
+		return clienttypes.NewHeight(s.Rev, math.MaxUint64)
+	case "behind":
+		if h > 1000 {
+			return clienttypes.NewHeight(s.Rev, h-1000)
+		}
+		return clienttypes.NewHeight(s.Rev, 0)
+	}
+	return clienttypes.NewHeight(s.Rev, h)
 }
 
 type claim struct {
@@ -111,7 +134,7 @@ func ethClient(s setup, contract []byte) (sdk.KVStore, ethtypes.ClientState) {
 	for h, root := range s.Cons {
 		ht := clienttypes.NewHeight(s.Rev, h)
 		store.Set(host.ConsensusStateKey(ht), clienttypes.MustMarshalConsensusState(cdc(),
-			&ethtypes.ConsensusState{Timestamp: 1_600_000_000 + h%1000, Height: ht, Root: append([]byte(nil), root[:]...)}))
+			&ethtypes.ConsensusState{Timestamp: 1_600_000_000 + h%1000, Height: s.heightField(h), Root: append([]byte(nil), root[:]...)}))
 	}
 	cs := ethtypes.ClientState{
 		Header:          ethtypes.Header{Height: clienttypes.NewHeight(s.Rev, s.Head)},
@@ -148,7 +171,7 @@ func bscClient(s setup, odd bool, contract []byte) (sdk.KVStore, bsctypes.Client
 	for h, root := range s.Cons {
 		ht := clienttypes.NewHeight(s.Rev, h)
 		store.Set(host.ConsensusStateKey(ht), clienttypes.MustMarshalConsensusState(cdc(),
-			&bsctypes.ConsensusState{Timestamp: 1_600_000_000 + h%1000, Height: ht, Root: append([]byte(nil), root[:]...)}))
+			&bsctypes.ConsensusState{Timestamp: 1_600_000_000 + h%1000, Height: s.heightField(h), Root: append([]byte(nil), root[:]...)}))
 	}
 	n := 2 * (s.Delay - 1)
 	if odd {
@@ -1050,6 +1073,7 @@ func runCase(t *rapid.T, r *rec.Recorder) {
 
 	// ---- gating ----
 	s := setup{Cons: map[uint64][32]byte{}}
+	s.FieldSkew = rapid.SampledFrom([]string{"", "", "", "", "zero", "ahead", "behind"}).Draw(t, "consensusHeightField")
 	if rapid.IntRange(0, 9).Draw(t, "revKind") == 0 {
 		s.Rev = rapid.Uint64().Draw(t, "revision")
 	}
